@@ -7,7 +7,7 @@
    clause "no (local, remote) pair is listed twice" is refuted by one exotic history (known finding
    C06.no_duplicate_pairs.two_prflx_superseded; witness on the model: Findings/F_C06_two_prflx.v). *)
 From Coq Require Import ZArith Bool List.
-From Ice Require Import Model.AgentTypes Model.AgentCore Gen.Consts Proofs.AgentFrame Proofs.AgentC06.
+From Ice Require Import Model.AgentTypes Model.AgentCore Gen.Consts Proofs.AgentFrame Proofs.AgentC06 Proofs.AgentC03Sel.
 Import ListNotations.
 Local Open Scope Z_scope.
 
@@ -55,3 +55,11 @@ Example C06_example :
   let s := fst (run cfg 1 1 [AddLocal l; AddRemote r; Start false 3 4; Restart 5 6; AddLocal l; AddRemote r]) in
   map p_id (s_checklist s) = [2] /\ s_next_pair s = 2.
 Proof. vm_compute. split; reflexivity. Qed.
+
+(* For every history: pair identifiers are unique and bounded by the counter, and the selected pair (if any)
+   is one of the listed pairs *)
+Theorem C06_ids_unique_and_selected_listed_all_histories : forall cfg lu lp ops,
+  let s := fst (run cfg lu lp ops) in
+  InvU s /\ (forall id, s_selected s = Some id -> exists p, In p (s_checklist s) /\ p_id p = id).
+Proof. exact ids_unique_and_selected_listed. Qed.
+Print Assumptions C06_ids_unique_and_selected_listed_all_histories.
